@@ -33,7 +33,7 @@ Theorem C06_frame_ok :
   (forall g, ~ In (AGl g) (foot (fmethods f) FUEL (Call u))).
 Proof.
   intros f u H. pose proof (frame_each f u H) as E. split; [exact E|]. split.
-  - intros a Ha. destruct (frame_reads_no_data [] [] f u E a Ha) as [[]|N]; exact N.
+  - intros a Ha. destruct (@frame_reads_no_data [] [] f u E a Ha) as [[]|N]; exact N.
   - exact (frame_no_global f u E).
 Qed.
 Print Assumptions C06_frame_ok.
@@ -45,8 +45,15 @@ Theorem C06_compute_all_is_the_loop :
 Proof. intros f H. pose proof loops_all as A. rewrite forallb_forall in A. exact (A f H). Qed.
 Print Assumptions C06_compute_all_is_the_loop.
 
+(* 3b. Outside the calls of the per-sample entry points, _compute_all rebinds only constructor-data attributes (its copies of
+       gyr/acc/mag), so the loop starts from the configuration and carried state that __init__ made. *)
+Theorem C06_compute_all_keeps_configuration :
+  forall f, In f [F_Madgwick; F_Mahony; F_EKF; F_UKF; F_AQUA; F_Fourati; F_ROLEQ; F_AngularRate; F_OLEQ] -> compute_all_ok f = true.
+Proof. intros f H. pose proof compute_all_all as A. rewrite forallb_forall in A. exact (A f H). Qed.
+Print Assumptions C06_compute_all_keeps_configuration.
+
 (* 4. Non-interference, over the store semantics of the effect language with UNINTERPRETED value functions (mix, wr, gl, test,
-      count): if the checker accepts entry point u of filter f (admitting the global state G and the extra attributes E) then,
+      count): if the checker accepts entry point u of filter f (allowing the global state G and the extra attributes E) then,
       in two worlds that agree on instance i's configuration + carried state (+ E, G), the call returns the same value and the
       worlds still agree there; nothing outside carried state (+ G) is modified; FUEL levels of nesting lose nothing. *)
 Theorem C06_frame_noninterference : forall (Val : Type) (mix : Val -> Val -> Val) (wr gl : string -> Val -> Val)
@@ -59,9 +66,9 @@ Theorem C06_frame_noninterference : forall (Val : Type) (mix : Val -> Val -> Val
   (forall s x, exec mix wr gl test count (fmethods f) i (S FUEL) (Call u) s x = exec mix wr gl test count (fmethods f) i FUEL (Call u) s x).
 Proof.
   intros Val mix wr gl test count G E f u i H. split; [|split].
-  - exact (frame_reads mix wr gl test count G E f u i H).
-  - exact (frame_writes mix wr gl test count G E f u i H).
-  - exact (frame_untruncated mix wr gl test count G E f u i H).
+  - exact (@frame_reads Val mix wr gl test count G E f u i H).
+  - exact (@frame_writes Val mix wr gl test count G E f u i H).
+  - exact (@frame_untruncated Val mix wr gl test count G E f u i H).
 Qed.
 Print Assumptions C06_frame_noninterference.
 
@@ -77,13 +84,13 @@ Theorem C06_batch_eq_stream_framed : forall (Val : Type) (mix : Val -> Val -> Va
     q0 :: fst (stream (ustep_step pair (ustep mix wr gl test count f i u)) s' q0 data).
 Proof.
   intros Val mix wr gl test count pair dq di G E f u i H data d0 s s' q0 Ha.
-  exact (batch_stream_framed pair (ustep mix wr gl test count f i u) (Fof G E f i) dq di
-           (frame_reads mix wr gl test count G E f u i H) data d0 s s' q0 Ha).
+  exact (@batch_stream_framed loc Val pair (ustep mix wr gl test count f i u) (Fof G E f i) dq di
+           (@frame_reads Val mix wr gl test count G E f u i H) data d0 s s' q0 Ha).
 Qed.
 Print Assumptions C06_batch_eq_stream_framed.
 
 (* 6. Determinism: a run (any number of calls, any inputs) is a function of the inputs and of the instance's configuration +
-      carried state (+ the admitted global state G, i.e. the NumPy seed for OLEQ): repeating it in a world that differs anywhere
+      carried state (+ the allowed global state G, i.e. the NumPy seed for OLEQ): repeating it in a world that differs anywhere
       else gives the same outputs. *)
 Theorem C06_deterministic : forall (Val : Type) (mix : Val -> Val -> Val) (wr gl : string -> Val -> Val)
   (test : Val -> bool) (count : Val -> nat) (G E : list string) (f : filt) (u : string) (i : nat),
@@ -92,7 +99,7 @@ Theorem C06_deterministic : forall (Val : Type) (mix : Val -> Val -> Val) (wr gl
     fst (run (ustep mix wr gl test count f i u) s xs) = fst (run (ustep mix wr gl test count f i u) s' xs).
 Proof.
   intros Val mix wr gl test count G E f u i H xs s s' Ha.
-  exact (proj1 (deterministic (frame_reads mix wr gl test count G E f u i H) xs Ha)).
+  exact (proj1 (deterministic (@frame_reads Val mix wr gl test count G E f u i H) xs Ha)).
 Qed.
 Print Assumptions C06_deterministic.
 
@@ -108,17 +115,17 @@ Theorem C06_interleave_isolated : forall (Val : Type) (mix : Val -> Val -> Val) 
       fst (run (ustep mix wr gl test count g j w) s (projR evs)).
 Proof.
   intros Val mix wr gl test count f g u w i j Hf Hg Hij evs s.
-  assert (D : forall l, Fof [] [] f i l -> Fof [] [] g j l -> False) by (intros l; apply Fof_disjoint; exact Hij).
+  assert (D : forall l, Fof [] [] f i l -> Fof [] [] g j l -> False) by (intros l; exact (@Fof_disjoint f g i j l Hij)).
   split.
-  - exact (proj1 (interleave_isolated_A D (frame_reads mix wr gl test count [] [] f u i Hf)
-                    (frame_writes mix wr gl test count [] [] g w j Hg) evs (agree_refl _ s))).
-  - exact (proj1 (interleave_isolated_B D (frame_reads mix wr gl test count [] [] g w j Hg)
-                    (frame_writes mix wr gl test count [] [] f u i Hf) evs (agree_refl _ s))).
+  - exact (proj1 (interleave_isolated_A D (@frame_reads Val mix wr gl test count [] [] f u i Hf)
+                    (@frame_writes Val mix wr gl test count [] [] g w j Hg) evs (agree_refl _ s))).
+  - exact (proj1 (interleave_isolated_B D (@frame_reads Val mix wr gl test count [] [] g w j Hg)
+                    (@frame_writes Val mix wr gl test count [] [] f u i Hf) evs (agree_refl _ s))).
 Qed.
 Print Assumptions C06_interleave_isolated.
 
 (* 8. PARTIAL (known finding Madgwick/stream-uses-gain_imu): Madgwick's entry points pass the checker once the attribute `gain`
-      is admitted; so (4)-(6) hold for Madgwick between worlds that ALSO agree on `gain` (e.g. an explicit gain=/beta= given to
+      is allowed; so (4)-(6) hold for Madgwick between worlds that ALSO agree on `gain` (e.g. an explicit gain=/beta= given to
       both constructors).  The refutation of the unrestricted statement is C06_refuted.v. *)
 Theorem C06_madgwick_frame_partial :
   frame_ok_gen [] ["gain"] F_Madgwick "updateIMU" = true /\ frame_ok_gen [] ["gain"] F_Madgwick "updateMARG" = true.
@@ -126,7 +133,7 @@ Proof. exact frame_Madgwick_mod_gain. Qed.
 Print Assumptions C06_madgwick_frame_partial.
 
 (* 9. OLEQ (single-frame; determinism and isolation clauses): the property names the NumPy global seed as an input of the
-      estimator that draws a random start vector; with that one global admitted, the frame holds. *)
+      estimator that draws a random start vector; with that one global allowed, the frame holds. *)
 Theorem C06_oleq_frame_seeded : frame_ok_gen ["np.random"] [] F_OLEQ "estimate" = true.
 Proof. exact frame_OLEQ_seeded. Qed.
 Print Assumptions C06_oleq_frame_seeded.
